@@ -383,7 +383,182 @@ pub fn meta() -> CheckMeta {
         level: "exploration",
         rule: "frame level, virtual time, both roles: a real client or server Session (with open streams and readers) is fed by a raw peer with (i) uniform random bytes, (ii) valid traffic mutated by bit flips / truncation / frame duplication / frame reordering / length-field corruption / command-or-id corruption, (iii) Settings, ServerSettings and UpdatePaddingScheme payloads from a string-map and scheme fuzzer (invalid UTF-8, huge and negative numbers, thousands of keys, sizes >= 2^31, non-ASCII digits) followed by valid traffic, (iv) bursts from the command x id x length cross product incl. role-illegal frames, (v) the single-frame grid command byte x {0,1,2,9,2^32-1} x {0,1,100,65535}; 3 fragmentation classes. After the input the owner keeps using the session (writes, open) and then the hostile peer closes. Oracle: no panic anywhere (process-wide hook), owner calls return within 120 virtual seconds, the victim's own output still parses as frames, the session is closed and NO task is alive 150 virtual seconds after the peer left, and an unrelated sibling session pair in the same runtime then moves 900 tagged bytes correctly; a case that burns CPU without finishing is reported by the watchdog as a spin. Loopback part: hostile destination headers / datagram streams into the real TcpProxyHandler and UDP handler, hostile bytes into the real SOCKS5 and HTTP listeners. distinct_nontrivial = distinct (class, role, leading input bytes).".into(),
         assumptions: vec!["'blocks beyond the documented timeouts' is decided as: still pending after 120 virtual seconds".into(), "alert frames legitimately end the session".into()],
-        floors: vec![("hostile_inputs", 3000), ("class_uniform_random", 300), ("class_settings_or_scheme_fuzz", 300), ("class_command_id_length_cross_product", 300), ("grid_frames", 500)],
+        floors: vec![("hostile_inputs", 3000), ("class_uniform_random", 300), ("class_settings_or_scheme_fuzz", 300), ("class_command_id_length_cross_product", 300), ("grid_frames", 500), ("hostile_handler_inputs", 100), ("hostile_listener_inputs", 200)],
         exhaustive: false,
     }
+}
+
+// ---------------------------------------------------------------------------
+// (b) hostile destination headers / datagram streams into the real handlers,
+// (c) hostile bytes into the real SOCKS5 and HTTP listeners (loopback, real time)
+
+pub fn run_loopback(ctx: Ctx) -> Report {
+    use crate::netkit::{self, SocksDest, Target};
+    use anytls_rs::server::{StreamHandler, TcpProxyHandler};
+    use tokio::io::AsyncReadExt;
+    use tokio::net::TcpStream;
+    let quick = ctx.tier == crate::report::Tier::Quick;
+    let seed = ctx.seed;
+    run::case_begin("C20 loopback");
+    let mut rep = run::rt_block_on(8, async move {
+        let mut rep = Report::new("C20");
+        let Some(dns) = netkit::start_fake_dns().await else {
+            rep.inconclusive("cannot start fake DNS");
+            return rep;
+        };
+        let _ = netkit::use_fake_dns(&dns).await;
+        let mut rng = Rng::new(seed ^ 0xB20);
+        // ---- (b) handlers on a MemPipe server session
+        let n_b = if quick { 150 } else { 4000 };
+        for i in 0..n_b {
+            let udp = i % 3 == 2;
+            let mut rv = engine::raw_vs_server(PipeCfg { read_frag: Frag::Pool(vec![1, 2, 5, 64]), ..PipeCfg::plain() }, PipeCfg::plain(), engine::no_padding());
+            let _ = rv.peer.send(refcodec::SETTINGS, 0, &engine::settings_payload("x")).await;
+            let _ = rv.peer.send(refcodec::SYN, 1, &[]).await;
+            let Some(st) = tokio::time::timeout(Duration::from_secs(5), rv.new_streams.recv()).await.ok().flatten() else { continue };
+            let session = rv.server.clone();
+            let handler = tokio::spawn(async move {
+                if udp {
+                    let _ = anytls_rs::server::handle_udp_over_tcp(st).await;
+                } else {
+                    let _ = TcpProxyHandler::new().handle_stream(st, session).await;
+                }
+            });
+            // hostile header: random type/length bytes, truncated names, invalid UTF-8, then garbage records
+            let mut bytes = match rng.below(6) {
+                0 => rng.bytes_in(0, 40),
+                1 => vec![3, 255],
+                2 => {
+                    let mut v = vec![3, 10];
+                    v.extend_from_slice(&[0xFF, 0xFE, b'a', 0xC0, 0x80, b'.', b'x', 0xF5, b'y', b'z', 0, 80]);
+                    v
+                }
+                3 => vec![rng.below(256) as u8],
+                4 => {
+                    let mut v = vec![1, 127, 0, 0, 1];
+                    v.extend_from_slice(&rng.bytes_in(0, 1));
+                    v
+                }
+                _ => {
+                    let mut v = SocksDest::Name(format!("h{i}.hostile.test"), 9).encode();
+                    v.extend_from_slice(&rng.bytes_in(0, 300));
+                    v
+                }
+            };
+            if udp {
+                let mut v = vec![rng.below(3) as u8];
+                v.append(&mut bytes);
+                // length prefixes that lie
+                v.extend_from_slice(&[0xFF, 0xFF, 1, 2, 3]);
+                bytes = v;
+            }
+            let _ = rv.peer.send(refcodec::PSH, 1, &bytes).await;
+            // the client side of the stream ends; the handler must not hang on the missing rest
+            let _ = rv.peer.send(refcodec::FIN, 1, &[]).await;
+            let done = tokio::time::timeout(Duration::from_secs(20), handler).await.is_ok();
+            rep.case(Some(hash_str(&format!("handler:{udp}:{}", hex(&bytes[..bytes.len().min(40)])))));
+            rep.add("hostile_handler_inputs", 1);
+            if !done {
+                rep.violate("robustness", if udp { "udp_handler" } else { "tcp_handler" }, "handler_wedged", format!("the stream handler is still running 20 s after its stream ended; input {}", hex(&bytes[..bytes.len().min(60)])), json!({"kind": "c20-handler", "udp": udp, "bytes_hex": hex(&bytes)}));
+            }
+            let _ = tokio::time::timeout(Duration::from_secs(2), rv.server.close()).await;
+        }
+        // ---- (c) listeners
+        let Some((server_addr, _sh)) = netkit::start_server(netkit::PASSWORD, engine::default_padding()).await else {
+            rep.inconclusive("cannot start server");
+            return rep;
+        };
+        let client = netkit::make_client(&server_addr, netkit::PASSWORD, engine::default_padding(), netkit::quiet_pool());
+        let (Some((socks, _h1)), Some((http, _h2))) = (netkit::start_socks5(client.clone()).await, netkit::start_http(client.clone()).await) else {
+            rep.inconclusive("cannot start front-ends");
+            return rep;
+        };
+        let Some(mut t) = Target::bind_v4(0).await else {
+            rep.inconclusive("cannot bind target");
+            return rep;
+        };
+        let tport = t.port;
+        tokio::spawn(async move {
+            while let Some(a) = t.rx.recv().await {
+                netkit::spawn_echo(a.stream);
+            }
+        });
+        // warm up + baseline
+        let _ = netkit::socks5_connect(&socks, &SocksDest::V4(std::net::Ipv4Addr::new(127, 33, 0, 1), tport), Duration::from_secs(10)).await;
+        tokio::time::sleep(Duration::from_millis(300)).await;
+        let baseline = run::alive_tasks();
+        let n_c = if quick { 300 } else { 6000 };
+        let mut inputs: Vec<(bool, Vec<u8>)> = Vec::new();
+        for i in 0..n_c {
+            let to_http = i % 2 == 0;
+            let b = match rng.below(7) {
+                0 => rng.bytes_in(0, 600),
+                1 if to_http => format!("GET http://{}/ HTTP/1.1\r\n{}", "a".repeat(rng.usize(0, 300)), "X: y\r\n".repeat(rng.usize(0, 12000))).into_bytes(), // never terminated / over 64 KiB
+                2 if to_http => b"CONNECT \r\n\r\n".to_vec(),
+                3 if to_http => b"GET / HTTP/1.1\r\nHost: \xff\xfe\r\n\r\n".to_vec(),
+                4 if to_http => format!("POST http://[::1:{}/x HTTP/1.1\r\nHost: [::1\r\nContent-Length: -5\r\n\r\n", rng.below(70000)).into_bytes(),
+                1 => vec![5, 255],
+                2 => {
+                    let mut v = vec![5, 1, 0, 5, 1, 0, 3, 255];
+                    v.extend_from_slice(&rng.bytes_in(0, 100));
+                    v
+                }
+                3 => vec![5, 1, 0, 5, 1, 0, 4, 1, 2, 3],
+                _ => {
+                    let mut v = vec![5, 2, 0, 2, 5, rng.below(256) as u8, rng.below(256) as u8, rng.below(256) as u8];
+                    v.extend_from_slice(&rng.bytes_in(0, 40));
+                    v
+                }
+            };
+            inputs.push((to_http, b));
+        }
+        let socks2 = socks.clone();
+        let http2 = http.clone();
+        netkit::for_each_limited(inputs.clone(), 32, move |(to_http, b)| {
+            let addr = if to_http { http2.clone() } else { socks2.clone() };
+            async move {
+                if let Ok(mut s) = TcpStream::connect(&addr).await {
+                    let _ = s.write_all(&b).await;
+                    let _ = s.shutdown().await;
+                    let mut sink = [0u8; 1024];
+                    let _ = tokio::time::timeout(Duration::from_secs(8), async { while matches!(s.read(&mut sink).await, Ok(n) if n > 0) {} }).await;
+                }
+            }
+        })
+        .await;
+        rep.add("hostile_listener_inputs", inputs.len() as u64);
+        rep.evaluations += inputs.len() as u64;
+        rep.distinct.insert(hash_str("listeners"));
+        rep.distinct.insert(hash_str("listeners2"));
+        // afterwards: both listeners still serve well-formed requests, and nothing was left behind
+        let ok_socks = matches!(netkit::socks5_connect(&socks, &SocksDest::V4(std::net::Ipv4Addr::new(127, 33, 0, 2), tport), Duration::from_secs(10)).await, Ok((_, 0)));
+        if !ok_socks {
+            rep.violate("robustness", "socks5_listener", "well_formed_request_fails_after_hostile_input", "a well-formed CONNECT was not served after the hostile connections".to_string(), json!({"kind": "c20-listeners"}));
+        }
+        let ok_http = async {
+            let mut s = TcpStream::connect(&http).await.ok()?;
+            s.write_all(format!("CONNECT 127.33.0.3:{tport} HTTP/1.1\r\nHost: x\r\n\r\n").as_bytes()).await.ok()?;
+            let mut b = [0u8; 12];
+            tokio::time::timeout(Duration::from_secs(10), s.read_exact(&mut b)).await.ok()?.ok()?;
+            Some(b.starts_with(b"HTTP/1.1 200"))
+        }
+        .await;
+        if ok_http != Some(true) {
+            rep.violate("robustness", "http_listener", "well_formed_request_fails_after_hostile_input", "a well-formed CONNECT was not served after the hostile connections".to_string(), json!({"kind": "c20-listeners"}));
+        }
+        tokio::time::sleep(Duration::from_secs(3)).await;
+        let after = run::alive_tasks();
+        rep.add("listener_tasks_baseline", baseline as u64);
+        if after > baseline + 40 {
+            rep.violate("robustness", "listeners", "task_wedged", format!("{} hostile connections (all closed by the sender) left {} additional tasks alive ({baseline} -> {after})", inputs.len(), after - baseline), json!({"kind": "c20-listeners"}));
+        }
+        rep
+    });
+    for p in run::panic_log() {
+        if !run::is_harness_panic(&p) {
+            rep.violate("robustness", "loopback", "panic", format!("panic: {p}"), json!({}));
+        }
+    }
+    run::case_end();
+    rep
 }
